@@ -657,7 +657,9 @@ impl<'a> TupleReader<'a> {
                 // If null, the offset doesn't matter - null check happens first
             }
 
-            if snapshot.is_committed_before_snapshot(layout.version_xmin) {
+            if snapshot.is_committed_before_snapshot(layout.version_xmin)
+                || snapshot.xid() == layout.version_xmin
+            {
                 return Ok(Some(layout));
             }
         }
